@@ -77,6 +77,9 @@ type callPlan struct {
 	Dst      int       `json:"dst"`
 	Hole     int       `json:"black_hole,omitempty"`  // > 0: the call addresses black hole #Hole instead of node Dst
 	Unreach  bool      `json:"unreachable,omitempty"` // the call addresses a peer ID nobody knows an address of
+	// > 0: the call sends the byte-identical payload (and procedure) of every other call of the same group, and all
+	// calls of the group are fired together within one wall-clock second (twins_test.go)
+	Twin     int       `json:"identical_payload_group,omitempty"`
 	PreUs    int       `json:"pre_us,omitempty"`
 	Cancel   bool      `json:"cancel,omitempty"`
 	CancelUs int       `json:"cancel_us,omitempty"`
@@ -155,6 +158,10 @@ type callState struct {
 	stallsStart, stallsEnd int64
 	sawHole                bool
 	wants                  atomic.Bool // about to take resMu (setWant)
+	// identical-payload group member: wall-clock second at which its first attempt passed after-send; counted in the
+	// group's in-flight counter
+	firstSendSec int64
+	twinInFlight bool
 }
 
 type caseState struct {
@@ -185,6 +192,34 @@ type caseState struct {
 	nodeIn     [maxConns]atomic.Int32 // calls in flight per requester node
 	wantLock   [maxConns]atomic.Int32 // per requester node: calls that are about to take resMu (call about to start / timer fired, until the next after-send or the return)
 	nProbes    int                    // storm class: calls appended to cs.calls for the liveness probe
+	// Message IDs are not assumed to be unique per request (an engine may derive them from anything): every attempt that
+	// passed after-send with an ID is an "owner" of that ID; found/unknown events are counted per ID.
+	owners  map[string][]*attState
+	idEv    map[string]*idEvents
+	lostOut []string // IDs whose reply was dropped as unknown while a request with that ID was outstanding (certain)
+	// identical-payload groups (twins_test.go)
+	twins   map[int][]*callState
+	gates   map[int]*twinGate
+	invByID map[string][]*invRec
+	invCnt  map[[2]int]int // (group, responder node) -> handler invocations so far
+	subCnt  map[[3]int]int // (group, requester node, responder node) -> handler invocations so far
+}
+
+// idEvents: what onResponse did with the responses carrying one message ID.
+type idEvents struct {
+	found, unknown int
+	// the reply was dropped as "unknown request ID" while more requests with this ID were outstanding (after-send
+	// passed, timer not fired, context not cancelled) than responses with this ID had found a pending entry
+	lostWaiting, lostFound int
+}
+
+func (cs *caseState) ev(id string) *idEvents { // cs.mu held
+	e := cs.idEv[id]
+	if e == nil {
+		e = &idEvents{}
+		cs.idEv[id] = e
+	}
+	return e
 }
 
 var (
@@ -215,8 +250,10 @@ func (cs *caseState) touch() {
 func (cs *caseState) att(id string, c *callState) *attState {
 	cs.mu.Lock()
 	defer cs.mu.Unlock()
-	if a, ok := cs.byID[id]; ok {
-		return a
+	for _, a := range cs.owners[id] {
+		if a.call == c {
+			return a
+		}
 	}
 	a := &attState{id: id, call: c, idx: len(c.atts), foundCh: make(chan struct{}), handledCh: make(chan struct{}), timeoutCh: make(chan struct{})}
 	pi := a.idx
@@ -225,8 +262,36 @@ func (cs *caseState) att(id string, c *callState) *attState {
 	}
 	a.plan = c.plan.Att[pi]
 	c.atts = append(c.atts, a)
+	cs.owners[id] = append(cs.owners[id], a)
+	if _, ok := cs.byID[id]; ok {
+		return a // the ID is in use by another request as well: ID-keyed events stay with its first owner
+	}
 	cs.byID[id] = a
+	// Attempts of identical-payload calls are created by the requester only (the handler cannot tell the calls of a
+	// group apart): responses handled before the requester got here were counted per ID.
+	if e := cs.idEv[id]; e != nil {
+		if e.found > 0 {
+			a.foundN, a.foundEarly = e.found, true
+			a.foundClosed, a.handledClosed = true, true
+			close(a.foundCh)
+			close(a.handledCh)
+		} else if e.unknown > 0 {
+			a.unknownN, a.lostEarly = e.unknown, true
+			a.handledClosed = true
+			close(a.handledCh)
+		}
+	}
 	return a
+}
+
+// attOf returns the attempt of call c that uses message ID id (cs.mu held); nil if there is none.
+func (cs *caseState) attOf(id string, c *callState) *attState {
+	for _, a := range cs.owners[id] {
+		if a.call == c {
+			return a
+		}
+	}
+	return nil
 }
 
 func sleepUs(us int) {
@@ -279,6 +344,7 @@ func sched(point string, id string) {
 		cs.mu.Lock()
 		a.entered = true
 		cs.mu.Unlock()
+		cs.twinSent(c, a)
 		cs.setWant(c, false) // registered and sent
 		switch a.plan.Dir {
 		case dirSleepSend:
@@ -294,8 +360,15 @@ func sched(point string, id string) {
 		a.released = true
 		cs.mu.Unlock()
 	case p2p.VerifPointTimeout:
+		g := gid() // the point is reached on the requester's goroutine
 		cs.mu.Lock()
-		a := cs.byID[id]
+		var a *attState
+		if c := cs.byGid[g]; c != nil {
+			a = cs.attOf(id, c)
+		}
+		if a == nil {
+			a = cs.byID[id]
+		}
 		if a == nil {
 			cs.mu.Unlock()
 			return
@@ -322,9 +395,14 @@ func sched(point string, id string) {
 		cs.mu.Lock()
 		a := cs.byID[id]
 		if a == nil {
+			if cs.knownTwinID(id) { // identical-payload call whose requester has not reached after-send yet
+				cs.ev(id).found++
+				cs.handled.Add(1)
+			}
 			cs.mu.Unlock()
 			return
 		}
+		cs.ev(id).found++
 		cs.handled.Add(1)
 		a.foundN++
 		first := a.foundN == 1
@@ -373,12 +451,32 @@ func onUnknown(id string) {
 	cs.mu.Lock()
 	a := cs.byID[id]
 	if a == nil {
+		if cs.knownTwinID(id) {
+			cs.ev(id).unknown++
+		}
 		cs.unkOth.Add(1)
 		cs.mu.Unlock()
 		return
 	}
 	cs.handled.Add(1)
 	a.unknownN++
+	// Certain lost reply: the pending entry of a request is present from before its send until its timer fired
+	// (timeout-fired precedes the removal), its context was cancelled (flag set before cancel()) or a response was
+	// handed to it (before-deliver precedes the hand-over) - all ordered with this line through resMu. So if more
+	// requests with this ID are outstanding than responses with this ID found an entry, the entry of a waiting
+	// request was missing and its reply has just been dropped.
+	e := cs.ev(id)
+	e.unknown++
+	waiting := 0
+	for _, o := range cs.owners[id] {
+		if o.entered && !o.timeoutFired && !o.call.cancelled {
+			waiting++
+		}
+	}
+	if waiting > e.found && e.lostWaiting == 0 {
+		e.lostWaiting, e.lostFound = waiting, e.found
+		cs.lostOut = append(cs.lostOut, id)
+	}
 	if !a.released && a.foundN == 0 {
 		a.lostEarly = true
 	}
@@ -456,11 +554,14 @@ func payloadOf(no int64, idx int) string {
 	return "c17|" + strconv.FormatInt(no, 10) + "|" + strconv.Itoa(idx)
 }
 
-func tokenOf(isErr bool, payload, id string) string {
+// tokenOf: what a handler answers - the payload and message ID of the request it serves, the responder itself (node) and
+// the number of this invocation (per call; per group and responder for identical-payload calls).
+func tokenOf(isErr bool, payload, id string, node, k int) string {
+	t := "tok|"
 	if isErr {
-		return "err|" + payload + "|" + id
+		t = "err|"
 	}
-	return "tok|" + payload + "|" + id
+	return t + payload + "|" + id + "|r" + strconv.Itoa(node) + "|k" + strconv.Itoa(k)
 }
 
 // raw sends a response message without any handler (duplicate / unsolicited).
@@ -486,6 +587,10 @@ func handle(node int, w p2p.ResponseWriter, req *p2p.Request) {
 		w.Write([]byte("stale"))
 		return
 	}
+	if strings.HasPrefix(parts[2], "g") {
+		cs.handleTwin(node, parts[2], w, req)
+		return
+	}
 	ci, err := strconv.Atoi(parts[2])
 	if err != nil || ci < 0 || ci >= len(cs.calls) {
 		w.Write([]byte("stale"))
@@ -502,9 +607,10 @@ func handle(node int, w p2p.ResponseWriter, req *p2p.Request) {
 	cs.mu.Lock()
 	c.handlerN++
 	a.handlerN++
+	k := c.handlerN
 	cs.mu.Unlock()
 	pl := a.plan
-	tok := tokenOf(pl.Err, c.payload, req.ID)
+	tok := tokenOf(pl.Err, c.payload, req.ID, node, k)
 	src := c.plan.Src
 	if pl.DupBefore && !cs.w.dupsLate {
 		cs.mu.Lock()
@@ -603,6 +709,7 @@ type verdict struct {
 	// other-error results of calls whose context had been cancelled (libp2p reports a cancellation during stream
 	// negotiation as "i/o deadline reached")
 	otherCancelledN int
+	tw              twinStats // identical-payload groups (twins_test.go)
 }
 
 func (v *verdict) add(sig, format string, a ...any) {
@@ -724,10 +831,11 @@ func runCase(w *workload) (*verdict, error) {
 	}
 	T := time.Duration(w.TimeoutMs) * time.Millisecond
 	cs := &caseState{no: caseNo.Add(1), w: w, cl: cl, T: T, byGid: map[int64]*callState{}, byID: map[string]*attState{},
-		lastFnd: map[int]*attState{}, closing: make(chan struct{})}
+		lastFnd: map[int]*attState{}, closing: make(chan struct{}), owners: map[string][]*attState{}, idEv: map[string]*idEvents{}}
 	for i, p := range w.Calls {
 		cs.calls = append(cs.calls, &callState{idx: i, plan: p, payload: payloadOf(cs.no, i), cancelCh: make(chan struct{}), done: make(chan struct{})})
 	}
+	cs.initTwins()
 	if w.Storm { // liveness probe after the storm: one fresh fast call per node, created now (the handler indexes cs.calls)
 		for n := 0; n < 3*w.NConn; n++ { // up to three tries per node
 			i := len(cs.calls)
@@ -824,6 +932,7 @@ func (cs *caseState) runCall(g int64, c *callState) {
 	cs.byGid[g] = c
 	cs.mu.Unlock()
 	sleepUs(c.plan.PreUs)
+	cs.twinArrive(c) // identical-payload group: all of its calls go together, within one wall-clock second
 	var tm *time.Timer
 	if c.plan.Cancel {
 		tm = time.AfterFunc(time.Duration(c.plan.CancelUs)*time.Microsecond, func() { cs.cancelCall(c) })
@@ -865,6 +974,7 @@ func (cs *caseState) runCall(g int64, c *callState) {
 	if tm != nil {
 		tm.Stop()
 	}
+	cs.twinReturned(c)
 	cs.mu.Lock()
 	c.resp = resp
 	c.returned = true
@@ -1017,6 +1127,15 @@ func (cs *caseState) evaluate(v *verdict, finished bool) {
 	if n := cs.misrte.Load(); n > 0 {
 		v.add("correlation:request-at-wrong-node", "%d requests reached a node they were not addressed to", n)
 	}
+	cs.attributeTwinRuns()
+	sort.Strings(cs.lostOut)
+	for i, id := range cs.lostOut {
+		if i >= 3 {
+			break
+		}
+		v.add(sigLostOutstanding, "%s", cs.describeLostOutstanding(id))
+	}
+	twinTok := map[string]*callState{}
 	for _, c := range cs.calls {
 		v.attempts += len(c.atts)
 		ids := map[string]*attState{}
@@ -1088,12 +1207,29 @@ func (cs *caseState) evaluate(v *verdict, finished bool) {
 			}
 			continue
 		}
+		if c.plan.Twin > 0 {
+			if why := cs.judgeTwinResult(c, txt, r, twinTok); why != "" {
+				v.add("correlation:foreign-response", "call %d (node %d -> node %d, one of the concurrent calls with the identical payload %q) returned a response that is not the one its own target produced for its own request: %s; got %q from %s: %s",
+					c.idx, c.plan.Src, c.plan.Dst, c.payload, why, txt, r.PeerID(), cs.describeTwinGroup(c.plan.Twin))
+				continue
+			}
+			v.tw.ownResponse++
+			if r.Error() != nil {
+				v.remErrN++
+			} else {
+				v.okN++
+			}
+			continue
+		}
 		parts := strings.Split(txt, "|")
-		good := len(parts) == 5 && parts[1]+"|"+parts[2]+"|"+parts[3] == c.payload
+		good := len(parts) == 7 && parts[1]+"|"+parts[2]+"|"+parts[3] == c.payload
 		var a *attState
 		if good {
 			a = ids[parts[4]]
 			good = a != nil && a.handlerN > 0 && ((parts[0] == "err") == a.plan.Err) && ((parts[0] == "err") == (r.Error() != nil))
+		}
+		if good && parts[5] != "r"+strconv.Itoa(c.plan.Dst) { // the responder names itself
+			good = false
 		}
 		if good && r.PeerID() != cs.cl.ids[c.plan.Dst] {
 			good = false
@@ -1108,6 +1244,7 @@ func (cs *caseState) evaluate(v *verdict, finished bool) {
 			v.okN++
 		}
 	}
+	cs.judgeTwins(v)
 	cs.judgeStalled(v)
 }
 
@@ -1218,6 +1355,7 @@ func drawWorkload(t *rapid.T) *workload {
 		to := (from + 1 + rapid.IntRange(0, w.NConn-2).Draw(t, "unsolTo")) % w.NConn
 		w.Unsol = append(w.Unsol, unsolPlan{From: from, To: to, DelayUs: rapid.IntRange(0, 2*tUs).Draw(t, "unsolDelay")})
 	}
+	addTwins(t, w, tUs/4, tUs/2, 0)
 	return w
 }
 
@@ -1238,6 +1376,18 @@ func summarize(w *workload, v *verdict) map[string]any {
 	if w.Storm {
 		m["late_replies_unknown_id"], m["late_replies_while_other_requests_in_flight"], m["late_replies_held_until_request_registers"] = v.lateN, v.lateConc, v.heldReg
 		m["unreachable_peer_calls"], m["liveness_probes"], m["liveness_probes_ok"] = v.unreachN, v.probeN, v.probeOK
+	}
+	if v.tw.groups > 0 {
+		m["identical_payload_groups"], m["identical_payload_calls"] = v.tw.groups, v.tw.calls
+		m["identical_payload_groups_to_different_peers"], m["identical_payload_groups_same_peer_repeated"] = v.tw.diffPeers, v.tw.samePeer
+		m["identical_payload_groups_outstanding_together"], m["identical_payload_groups_within_one_second"] = v.tw.together, v.tw.sameSecond
+		m["identical_payload_calls_returned_own_response"] = v.tw.ownResponse
+		for _, c := range w.Calls {
+			if c.Twin > 0 {
+				m["first_identical_payload_call"] = c
+				break
+			}
+		}
 	}
 	k := len(w.Calls)
 	if k > 3 {
@@ -1349,6 +1499,7 @@ func record(t fataler, kind string, w *workload, v *verdict) (knownHit bool) {
 	if v.blocked {
 		labels = append(labels, "case:blocked-layer(goroutine-evidence)")
 	}
+	labels = append(labels, twinLabels(w, v)...)
 	evid.R.Case(string(key), nontrivial, func() any { return summarize(w, v) }, labels...)
 	evid.R.Label("calls", int64(v.nCalls))
 	evid.R.Label("attempts", int64(v.attempts))
